@@ -1576,9 +1576,15 @@ func isComplexAggregationExpression(expr string) bool {
 	// Special case: single aggregation function with nested expression (only when OUTER is aggregation)
 	isSingleAggWithNestedFunc := false
 	if aggCount == 1 && outerIsAggregation {
+		// The exemption only applies when the aggregate call IS the whole item, i.e. the
+		// parenthesis opened by the outer function closes at the end of the expression.
+		// "AVG(t) * 1.8 + 32" is not such an item: it must be evaluated after aggregation.
 		start := strings.Index(expr, "(")
-		end := strings.LastIndex(expr, ")")
-		if start != -1 && end != -1 && end > start {
+		end := -1
+		if start != -1 {
+			end = findMatchingParenInternal(expr, start)
+		}
+		if start != -1 && end != -1 && end > start && strings.TrimSpace(expr[end+1:]) == "" {
 			innerExpr := strings.TrimSpace(expr[start+1 : end])
 			if !containsOperators(innerExpr) {
 				isSingleAggWithNestedFunc = true
@@ -1586,9 +1592,14 @@ func isComplexAggregationExpression(expr string) bool {
 		}
 	}
 
+	// A parenthesised item such as "(SUM(t))" has no outer function name and no operator;
+	// it still has to be evaluated after aggregation.
+	isParenthesisedAgg := aggCount > 0 && strings.HasPrefix(strings.TrimSpace(expr), "(")
+
 	result := (aggCount > 1) ||
 		(aggCount > 0 && containsOperatorsOutsideFunctions(expr) && !isSingleAggWithNestedFunc) ||
-		(aggCount > 0 && nonAggCount > 0 && !isSingleAggWithNestedFunc)
+		(aggCount > 0 && nonAggCount > 0 && !isSingleAggWithNestedFunc) ||
+		isParenthesisedAgg
 
 	return result
 }
